@@ -1,5 +1,5 @@
 (* C01 - MPQ build -> open round trip returns every file bit-identically. *)
-From WR Require Import Lib.Bits Mpq.Crypt Mpq.Archive Proofs.HashTable_proofs Proofs.FileLayout_proofs Proofs.Sectors_proofs Proofs.Sectors_example.
+From WR Require Import Lib.Bits Mpq.Crypt Mpq.Archive Proofs.HashTable_proofs Proofs.FileLayout_proofs Proofs.Sectors_proofs Proofs.Sectors_example Proofs.Build_proofs Proofs.Build_example.
 Open Scope N_scope.
 
 (* hash table: every successful insertion keeps the invariant ... *)
@@ -88,3 +88,19 @@ Theorem C01_file_roundtrip :
     read_file decompress a name = ROk (f_data f).
 Proof. exact file_roundtrip. Qed.
 Print Assumptions C01_file_roundtrip.
+
+(* the whole archive: what ArchiveBuilder writes (V1/V2 header, files one after the other, encrypted hash and
+   block tables, optional CRC attributes) is opened by Archive::open, and every pending file - the listfile
+   included - is found at its own block entry and read back bit-identically *)
+Theorem C01_build_roundtrip :
+  forall (compress : N -> list N -> option (list N)) (decompress : N -> list N -> N -> option (list N))
+         (c : cfg) (files : list file_spec) (bytes : list N),
+    (c_version c = 1 \/ c_version c = 2) -> c_shift c < 65536 ->
+    build compress c files = BOk bytes -> lenN bytes < M32 ->
+    Forall (file_ok compress decompress (sector_size (c_shift c))) (pending c files) ->
+    NoDup (map hkey (pending c files)) ->
+    (c_attrs c = 1 -> ~ In (hash_string s_attributes ht_name_a, hash_string s_attributes ht_name_b) (map hkey (pending c files))) ->
+    exists a, open bytes = Some a /\
+              forall f, In f (pending c files) -> read_file decompress a (f_name f) = ROk (f_data f).
+Proof. exact build_roundtrip. Qed.
+Print Assumptions C01_build_roundtrip.
